@@ -461,7 +461,19 @@ class Check:
                     d = self.compare(c, model_outs[i], obs)
                     if d:
                         disagreements.append((c, obs, model_outs[i], d))
-                for sig, what in self.oracle(c, obs):
+                try:
+                    verdicts = list(self.oracle(c, obs))
+                except Exception:
+                    # the oracle cannot read this observation (a shape the unchanged code never produces): the
+                    # correspondence is broken for the case, reported as such rather than ending the run
+                    import traceback
+                    verdicts = []
+                    harness_errors += 1
+                    disagreements.append((c, obs, model_outs[i], 'the property oracle failed on this observation: '
+                                          + traceback.format_exc()[-600:]))
+                    if harness_errors > 20:
+                        break
+                for sig, what in verdicts:
                     oracle_fail.append((c, obs, sig, what))
             for v in self.extra():
                 violations.append(v)
